@@ -30,6 +30,7 @@ import (
 )
 
 type world struct {
+	httpL *simListener // the debug server's listener while it is listening
 	mu      sync.Mutex // short critical sections only; never held while parked
 	log     *verifsim.Log
 	res     *verifsim.Result
@@ -742,26 +743,60 @@ func (w *world) listen(network, addr string) (net.Listener, error) {
 		return nil, &net.OpError{Op: "listen", Net: network, Addr: &net.TCPAddr{IP: net.ParseIP("127.0.0.1"), Port: 9430}, Err: os.NewSyscallError("bind", syscall.EADDRINUSE)}
 	}
 	w.log.Add(e)
-	return &simListener{w: w, closed: make(chan struct{})}, nil
+	l := &simListener{w: w, closed: make(chan struct{}), conns: make(chan net.Conn, 16)}
+	w.mu.Lock()
+	w.httpL = l
+	w.mu.Unlock()
+	return l, nil
 }
 
+// simListener accepts the connections the driver makes for "http" actions with
+// Conn set (one end of a net.Pipe each); all other requests are handed to the
+// handler directly.
 type simListener struct {
 	w      *world
 	once   sync.Once
 	closed chan struct{}
+	conns  chan net.Conn
 }
 
 func (l *simListener) Accept() (net.Conn, error) {
-	<-l.closed
-	return nil, net.ErrClosed
+	select {
+	case c := <-l.conns:
+		return c, nil
+	case <-l.closed:
+		return nil, net.ErrClosed
+	}
 }
 
 func (l *simListener) Close() error {
 	l.once.Do(func() {
 		l.w.log.Add(verifsim.Event{K: "http.close"})
+		l.w.mu.Lock()
+		if l.w.httpL == l {
+			l.w.httpL = nil
+		}
+		l.w.mu.Unlock()
 		close(l.closed)
 	})
 	return nil
+}
+
+// connect is the client's side of a TCP connect to the debug address.
+func (w *world) connect() net.Conn {
+	w.mu.Lock()
+	l := w.httpL
+	w.mu.Unlock()
+	if l == nil {
+		return nil
+	}
+	c1, c2 := net.Pipe()
+	select {
+	case l.conns <- c2:
+		return c1
+	default:
+		return nil
+	}
 }
 
 func (l *simListener) Addr() net.Addr { return &net.TCPAddr{IP: net.ParseIP("127.0.0.1"), Port: 9430} }
